@@ -149,6 +149,19 @@ def update_map(rr, x, lam, grid, L, regime=None):
     return np.array([a * x2, x2, c * x2]), t * x ** 2
 
 
+FS_REQ = []
+
+
+def bits(x):
+    import struct
+    return struct.unpack("<Q", struct.pack("<d", float(x)))[0]
+
+
+def unbits(n):
+    import struct
+    return struct.unpack("<d", struct.pack("<Q", int(n)))[0]
+
+
 def gradient_oracle(ctx, rng, n_geom):
     """Cheng-Todreas family (friction and flow split of the same family): the split the code returns must be a fixed point - to the
     solver's own tolerance - of the equal-pressure-loss update with THAT family's friction law (Props/C12.lean: c12_gradient_iter
@@ -214,6 +227,21 @@ def gradient_oracle(ctx, rng, n_geom):
                                           "factor's by %.3g (relative)" % (fam, regime, rel), **info)
                     else:
                         res = float(abs(g[1] - x[1]))      # the component the solver's stopping test looks at (|dx2| < 1e-5)
+                        if not calls:
+                            # the same point for the Lean model (Model/FlowSplit.lean: updateFloat) through the driver
+                            cc = rr.corr_constants
+                            de_ = np.asarray(rr.params['de'], dtype=float)
+                            deb_ = float(rr.bundle_params['de'])
+                            s_ = np.asarray(cc['fs']['na'], dtype=float) / rr.bundle_params['area']
+                            reL_ = cc['ff']['Re_bnds'][0] * de_ / deb_ * np.asarray(cc['fs']['fs']['laminar'])
+                            reT_ = cc['ff']['Re_bnds'][1] * de_ / deb_ * np.asarray(cc['fs']['fs']['turbulent'])
+                            kg_ = float(rr.coolant_int_params['grid_loss_coeff'] * cc['grid']['n']) if grid else 0.0
+                            hd = [rr.coolant_int_params['Re'], deb_, (lam or 0.0), kg_, 1.0]
+                            tys = [[x[i], de_[i], reL_[i], reT_[i], np.asarray(cc['ff']['Cf_sc']['laminar'])[i],
+                                    np.asarray(cc['ff']['Cf_sc']['turbulent'])[i], s_[i]] for i in range(3)]
+                            FS_REQ.append(("fsiter %s | %s" % (" ".join(str(bits(v)) for v in hd),
+                                                               " | ".join(" ".join(str(bits(v)) for v in t) for t in tys)),
+                                           x.tolist(), g.tolist(), "%s %s %s Re=%.4g" % (fam, regime, "grid" if grid else "bare", Re)))
                         if calls:
                             # the code's iteration gave up and the approximate formula was used
                             spread = float((loss.max() - loss.min()) / loss.mean())
@@ -248,7 +276,29 @@ def run(ctx):
     if ok:
         ctx.prove("Dassh.Props.C12")
     oracle(ctx, rng, 6 if ctx.thorough else 2)
+    del FS_REQ[:]
     gradient_oracle(ctx, rng, 12 if ctx.thorough else 3)
+    from harness import modelio
+    if FS_REQ and modelio.build_driver(ctx):
+        bad, worst, wpy = 0, 0.0, 0.0
+        for rep, (req, x, gpy, tag) in zip(modelio.ask([r[0] for r in FS_REQ]), FS_REQ):
+            parts = rep.split()
+            if parts[0] != "ok":
+                bad += 1
+                continue
+            gm = [unbits(v) for v in parts[1:4]]
+            wpy = max(wpy, max(abs(a - b) for a, b in zip(gm, gpy)))
+            res = abs(gm[1] - x[1])
+            worst = max(worst, res)
+            if not res <= 1e-4:
+                bad += 1
+                if bad == 1:
+                    ctx.problem("correspondence", "Model.FlowSplit.updateFloat vs flowsplit_ctd._iterate",
+                                "%s: returned split %s, one model update gives %s" % (tag, x, gm))
+        ctx.obligation("correspondence: the split the real code returns is a fixed point of Model.FlowSplit.updateFloat (friction law "
+                       "of its family, grids included) on %d points; worst residual %.2g (solver tolerance 1e-5)" % (len(FS_REQ), worst),
+                       bad == 0, kind="correspondence", detail="disagreements %d" % bad)
+        ctx.stats["lean_vs_python_update_max_dev"] = wpy
     ctx.nontrivial = ctx.evals
     ctx.traces = ctx.evals
     ctx.trusted += ["T1 trace of the constant CTD/UCTD flow split; the iteration update is a hand model (Props/C12.lean) of the "
